@@ -109,6 +109,18 @@ def gen_conc_program(rng, length):
             k = rng.choice(stored[1:])
             stored.remove(k); deleted.append(k)
             ops.append("del %d" % k)
+        elif r < 0.56 and len(stored) >= 2:
+            # burst: add one or two batches and delete one of the new/old ones before readers run
+            subs = []
+            for _ in range(rng.choice([1, 2])):
+                maxid += rng.choice([1, 2])
+                subs.append("add " + spec(gen_msgs(rng, maxid, n=1)))
+                stored.append(maxid)
+            k = rng.choice(stored[-3:])
+            if k != 0:
+                stored.remove(k); deleted.append(k)
+                subs.append("del %d" % k)
+            ops.append("burst " + " ; ".join(subs))
         elif r < 0.75 and len(live) < 4:
             tid += 1
             x = rng.choice(stored[-2:] + deleted[-2:] + [maxid, maxid + 1, maxid + 4, maxid + 2, rng.randrange(0, maxid + 2)])
